@@ -56,6 +56,34 @@ def _round(x: SymFloat, code):
     return SymFloat(z3.fpToFP(RNE, r, F64))
 
 
+_INT = {"b": (1, True), "B": (1, False), "h": (2, True), "H": (2, False), "i": (4, True), "I": (4, False), "q": (8, True), "Q": (8, False)}
+
+
+def _pack_int(v, size, signed, order):
+    from .symstr import SymBytes  # noqa: F401
+
+    v = SymInt.lift(v)
+    lo, hi = (-(1 << (8 * size - 1)), (1 << (8 * size - 1)) - 1) if signed else (0, (1 << (8 * size)) - 1)
+    if not bool((v >= lo) & (v <= hi)):
+        raise error("argument out of range")
+    bv = v.ext(8 * size) if v.e.size() != 8 * size else v.e
+    bs = []
+    for k in range(size):
+        b = z3.simplify(z3.Extract(8 * k + 7, 8 * k, bv))
+        bs.append(b.as_long() if z3.is_bv_value(b) else SymInt(z3.ZeroExt(1, b), 0, 255))
+    return bs if order in ("<", "", "=", "@") else bs[::-1]
+
+
+def _unpack_int(bs, signed, order):
+    if order not in ("<", "", "=", "@"):
+        bs = bs[::-1]
+    if all(isinstance(b, int) for b in bs):
+        return int.from_bytes(bytes(bs), "little", signed=signed)
+    parts = [(z3.BitVecVal(b, 8) if isinstance(b, int) else z3.Extract(7, 0, b.e) if b.e.size() >= 8 else z3.ZeroExt(8 - b.e.size(), b.e)) for b in bs]
+    bv = parts[0] if len(parts) == 1 else z3.Concat(*parts[::-1])
+    return SymInt.from_bv(bv, signed=signed)
+
+
 def pack(fmt, *values):
     if not any(isinstance(v, (SymFloat, SymInt, SymBool)) for v in values):
         return _s.pack(fmt, *values)
@@ -65,10 +93,47 @@ def pack(fmt, *values):
     order, n, code = m.groups()
     if code in _SORT:
         return SymPacked(order, code, [_round(SymFloat.lift(v), code) for v in values])
-    raise Unsupported(f"struct.pack of symbolic ints ({fmt})")
+    if code in _INT:
+        from .symstr import SymBytes, normb
+
+        if (int(n) if n else 1) != len(values):
+            raise error(f"pack expected {n or 1} items for packing (got {len(values)})")
+        size, signed = _INT[code]
+        out = []
+        for v in values:
+            out += _pack_int(v, size, signed, order)
+        return normb(SymBytes(out))
+    raise Unsupported(f"struct.pack of symbolic values ({fmt})")
+
+
+def _sym_unpack(fmt, buffer):
+    from .symstr import SymBytes
+
+    buffer = SymBytes.lift(buffer)
+    m = _FMT.match(fmt)
+    if not m:
+        raise Unsupported(f"struct.unpack format {fmt} on symbolic bytes")
+    order, n, code = m.groups()
+    n = int(n) if n else 1
+    if code in _INT:
+        size, signed = _INT[code]
+        if len(buffer) != n * size:
+            raise error(f"unpack requires a buffer of {n * size} bytes")
+        return tuple(_unpack_int(list(buffer.bs[k * size:(k + 1) * size]), signed, order) for k in range(n))
+    if code == "?":
+        if len(buffer) != n:
+            raise error(f"unpack requires a buffer of {n} bytes")
+        return tuple((b != 0) if isinstance(b, int) else bool(b != 0) for b in buffer.bs)
+    raise Unsupported(f"struct.unpack {fmt} on symbolic bytes")
+
+
+def _is_symbytes(b):
+    return type(b).__name__ in ("SymBytes", "SymByteArray")
 
 
 def unpack(fmt, buffer):
+    if _is_symbytes(buffer):
+        return _sym_unpack(fmt, buffer)
     if isinstance(buffer, SymPacked):
         m = _FMT.match(fmt)
         if not m or m.group(3) != buffer.code:
@@ -78,6 +143,14 @@ def unpack(fmt, buffer):
 
 
 def iter_unpack(fmt, buffer):
+    if _is_symbytes(buffer):
+        size = _s.calcsize(fmt)
+        if size == 0 or len(buffer) % size:
+            raise error(f"iterative unpacking requires a buffer of a multiple of {size} bytes")
+        from .symstr import SymBytes
+
+        bs = SymBytes.lift(buffer).bs
+        return iter([_sym_unpack(fmt, SymBytes(bs[k:k + size])) for k in range(0, len(bs), size)])
     if isinstance(buffer, SymPacked):
         return iter([(v,) for v in buffer.values])
     return _s.iter_unpack(fmt, buffer)
